@@ -7,9 +7,18 @@ CLAIMED = {
  'C16': dict(cat='proof', tech='Coq proof of refinement (invariant by induction over histories) + extracted-model correspondence',
    text='map_refines: for every operation history and every hash function the open-addressing table of map.c (model) is a finite map, probes terminate, load invariant holds; scope_innermost: every lookup in any history of scope operations yields the innermost binding, tags and ordinary names independent. Model tied to map.c/scope.c by slot-exact differential runs and to the compiler by generated units.',
    note='Trusted: Coq kernel, extraction (ExtrOcamlBasic), the harness; map.c/scope.c correspond to the model by testing, not proof; clients of the tables in decl.c/pp.c/qbe.c only exercised through the CLI.'),
+ 'C19': dict(cat='proof', tech='Coq termination/bound lemmas of the modelled loops + ASan/UBSan search over mutated, truncated and deep inputs',
+   text='PARTIAL. Proved (unbounded): the hash-table probe ends within cap steps on every reachable table (any hash); qbe.c:zero() terminates, uses only 1/2/4/8-byte naturally aligned stores (store-table index in bounds, also for alignments > 8) that tile the range; the AVL path array never overflows and scanner/ladder loops are structurally terminating (C13, C15, C16 theorems). NOT proved: memory safety of the C heap structures - searched with an ASan+UBSan build of the snapshot on the corpus, hand-written edge cases, 6000 stacked token/byte mutants, truncations at token boundaries, 25 deep/long constructs (10^4 nesting, 10^6-byte tokens) and failing I/O; every ending other than status 0/1/2 is a finding keyed by its call-site signature.',
+   note='Heap memory safety is not modelled (sanitizer-assisted search, not a proof). UBSan pointer-overflow (NULL+0 in arrayforeach) is deliberately excluded. CPU-time limits, not wall-clock, decide timeouts.'),
  'C15': dict(cat='proof', tech='Coq proofs (AVL invariant by induction over insertions, Fibonacci height bound, ladder correctness) + shape-exact correspondence',
    text='avl_inv: for every insertion sequence tree.c (model) keeps a strict search tree, AVL balance and exact stored heights; new flag = key absent; balanced height h needs fib(h+2)-1 nodes, so the path array (MAXH) never overflows and the emitted ladder is logarithmic; convert_canonical + casesearch_correct + switch_correct: after the conversion to the promoted type the comparison ladder reaches exactly the matching case, else default, and duplicates after conversion are diagnosed. Model tied to tree.c by all 46233 insertion orders of <= 8 keys (shape/height/flag exact) and long random sequences, and to the compiler by generated switch units whose emitted ladders are parsed and evaluated on keys, neighbours and type limits for all three targets.',
    note='Trusted: Coq kernel, extraction, the Python ladder parser/evaluator and C-semantics oracle (cross-checked with gcc); tree.c/qbe.c correspond to the model by testing; statement-level placement of case labels (stmt.c) exercised through the CLI only.'),
+ 'C17': dict(cat='proof', tech='Coq proof that the option-loop model equals the documented plan (tables regenerated from driver.c) + stub-tool correspondence',
+   text='plan_asbuilt: for every configuration and every argv (any length) the model of driver.c main/buildobj/spawnphase/buildexe equals the specification written from cproc(1) with three named deviations (known findings) switched on; route_order, stages_contiguous, plan_pipelines, plan_terminates; the three deviations have refutation witnesses. 62 option-table lines are re-read from driver.c on every run. The real driver.c+util.c, configured for three target triples, run with stub tools recording argv and the pipe chain on ~3000 generated command lines per run; logs must equal the extracted plan.',
+   note='Trusted: Coq kernel, extraction, the stub tools and log comparison, regex table reader; driver.c corresponds to Driver.v by testing; posix_spawn/pipe semantics assumed.'),
+ 'C18': dict(cat='proof', tech='Coq proof over an OS model (all failure points x all wait orders) + LD_PRELOAD trace correspondence under fault injection',
+   text='PARTIAL (kernel semantics assumed). fail_clean / success_clean / link_fail_clean / wait_loop_terminates: for every pipeline shape, every failure point and every order in which wait() returns children (under the stated fairness assumption), the model of buildobj/buildexe exits non-zero, never starts the link, unlinks the output and the temporaries, reaps every child and terminates. The unmodified driver runs under an LD_PRELOAD shim logging spawn/wait/kill/unlink/mkstemp while stub tools fail in six modes with forced termination orders (900 runs quick); the property is decided on the observation, and the observed schedule replayed in the extracted model must give the same call trace.',
+   note='Assumed: a finished or SIGTERMed child is eventually returned by wait(); pipes/kill/unlink behave as POSIX says. A child that ignores SIGTERM is outside the model. driver.c corresponds to DriverProc.v by testing.'),
  'C20': dict(cat='proof', tech='Coq-checked purity obligation over lists regenerated from the source + perturbation correspondence',
    text='PARTIAL. Theorem C20_no_environment_source is re-proved on every run against lists regenerated from /repo (libc imports of the hooks-off binary, every format string, every function that walks a hash table): no environment/time/pid/locale/random source, no %p, no table-order dependent emission. The run-time half (uninitialised reads, allocator/ASLR dependence) is carried by byte-exact comparison of all corpus and generated inputs under 13 perturbations, MALLOC_PERTURB_, ASLR off and valgrind on a sample; a broken obligation triggers an ltrace-guided search for the variable read.',
    note='Trusted: the translator gen/c20_purity.py (nm -D, regex), libc determinism in the C locale. Not proved: absence of uninitialised reads in the C heap (run-time observation only).'),
